@@ -103,6 +103,12 @@ CHECKS.update({
          "Location trees compared up to partial flags of internal nodes; a..b> locations are the recorded C02 finding and skipped by the layout clause; LOCUS read token-wise.", "§5 C03"),
 })
 
+CHECKS.update({
+ "C15": ("deviation-bounded exhaustive enumeration of annotated sequences and of parser outputs through the real JSON write/read path, with a one-step history (each value re-checked after the next Parse)",
+         "Assembled annotated sequences with at most 2 (3 thorough) deviations over 10 text kinds (accents, CJK, emoji, quotes, backslash, <&>, control characters, U+2028, empty) in 7 string fields, absent / empty / populated references, extra keywords, attributes and feature lists, 10 location shapes (to depth 4, partial flags, single-child wrapper nodes, empty sub-location lists), cached location text, topology; plus every record the GenBank parser returns over generated files (feature lists <= 2 over 13 shapes) and GFF parser outputs over lengths around the line width. Each value is marshalled and read by polyjson.Parse (and Write/Read through files): deep equality in every field (absent == empty), every feature re-linked to a parent holding the sequence and reporting the same GetSequence() as before, the previously read value re-checked after the next Parse, and Build(ParseJSON(Marshal(Parse(text)))) byte-identical to Build(Parse(text)) for GenBank and GFF.",
+         "encoding/json trusted; valid UTF-8 only.", "§5 C15"),
+})
+
 NOT_YET = {}
 
 props = [json.loads(l) for l in open('/verif/properties.jsonl')]
